@@ -51,6 +51,14 @@ Definition field_shapes (v : fval) : list tshape :=
   | VCharstr b => [TQuoted (map quoted_from_octet b)]
   | VWord w => [TWord (map SChar w)]
   | VCharstrs l => map (fun b => TQuoted (map quoted_from_octet b)) l
+  | VRest w => match w with [] => [] | _ => [TWord (map SChar w)] end
+  end.
+
+(* the write_token calls of a field: an empty rest-of-entry word is an empty token *)
+Definition val_sops (v : fval) : list sop :=
+  match v with
+  | VRest [] => [SEmpty]
+  | _ => map (fun sh => STok sh) (field_shapes v)
   end.
 
 Definition wf_field (k : fkind) (v : fval) : Prop :=
@@ -60,34 +68,40 @@ Definition wf_field (k : fkind) (v : fval) : Prop :=
   | FCharstr, VCharstr b => wf_charstr b
   | FWord, VWord w => plain_word w = true
   | FCharstrs, VCharstrs l => l <> [] /\ Forall wf_charstr l
+  | FRest, VRest w => forallb plain_char w = true
   | _, _ => False
   end.
 
 Fixpoint wf_fields (ks : list fkind) (vs : list fval) : Prop :=
   match ks, vs with
   | [], [] => True
-  | k :: kr, v :: vr => wf_field k v /\ (k = FCharstrs -> kr = []) /\ wf_fields kr vr
+  | k :: kr, v :: vr => wf_field k v /\ (k = FCharstrs \/ k = FRest -> kr = []) /\ wf_fields kr vr
   | _, _ => False
   end.
 
-Lemma field_shapes_text v : map (fun sh => OTok (shape_text sh)) (field_shapes v) = show_field v.
+Lemma val_sops_text v : map erase (val_sops v) = show_field v.
 Proof.
-  destruct v as [n|n|b|w|l]; cbn [field_shapes show_field map].
+  destruct v as [n|n|b|w|l|w]; cbn [val_sops field_shapes show_field map erase join].
   - cbn [shape_text]. rewrite plain_syms_text. reflexivity.
   - rewrite <- show_name_shape. reflexivity.
   - rewrite <- cstr_quoted_shape. reflexivity.
   - cbn [shape_text]. rewrite plain_syms_text. reflexivity.
-  - rewrite map_map. apply map_ext. intros b. rewrite <- cstr_quoted_shape. reflexivity.
+  - rewrite !map_map. apply map_ext. intros b. cbn [erase map join]. rewrite <- cstr_quoted_shape. reflexivity.
+  - destruct w as [|c w]; [reflexivity|]. cbv iota. remember (c :: w) as x.
+    cbn [map erase join shape_text]. rewrite plain_syms_text. reflexivity.
 Qed.
 
-Lemma field_shapes_good k v : wf_field k v -> Forall (fun sh => good_shape sh = true) (field_shapes v).
+Lemma val_sops_good k v : wf_field k v -> Forall good_sop (val_sops v).
 Proof.
-  destruct k, v; cbn [wf_field field_shapes]; intros W; try contradiction.
-  - constructor; [|constructor]. apply plain_word_good, show_dec_plain.
-  - constructor; [|constructor]. apply name_shape_good, W.
-  - constructor; [|constructor]. apply cstr_quoted_good, W.
-  - constructor; [|constructor]. apply plain_word_good, W.
-  - destruct W as [_ W]. rewrite Forall_map. eapply Forall_impl; [|exact W]. intros b Hb. apply cstr_quoted_good, Hb.
+  assert (S : forall sh, good_shape sh = true -> good_sop (STok sh)) by (intros sh G; split; [exact G | constructor]).
+  destruct k, v; cbn [wf_field val_sops field_shapes map]; intros W; try contradiction.
+  - constructor; [|constructor]. apply S, plain_word_good, show_dec_plain.
+  - constructor; [|constructor]. apply S, name_shape_good, W.
+  - constructor; [|constructor]. apply S, cstr_quoted_good, W.
+  - constructor; [|constructor]. apply S, plain_word_good, W.
+  - destruct W as [_ W]. rewrite !Forall_map. eapply Forall_impl; [|exact W]. intros b Hb. apply S, cstr_quoted_good, Hb.
+  - destruct w as [|c w]; [repeat constructor|]. constructor; [|constructor]. apply S, plain_word_good.
+    unfold plain_word. rewrite W. reflexivity.
 Qed.
 
 Lemma map_o_charstrs l : Forall wf_charstr l ->
@@ -108,17 +122,22 @@ Proof.
   - rewrite read_name_shape by exact Wv. cbn [bind]. rewrite IH by exact Wr. reflexivity.
   - rewrite read_charstr_quoted by exact Wv. cbn [bind]. rewrite IH by exact Wr. reflexivity.
   - cbn [shape_tok t_syms]. rewrite plain_word_text. cbn [bind]. rewrite IH by exact Wr. reflexivity.
-  - destruct Wv as [NE Wc]. specialize (Wl eq_refl). subst kr.
+  - destruct Wv as [NE Wc]. specialize (Wl (or_introl eq_refl)). subst kr.
     destruct vr as [|? ?]; [|cbn [wf_fields] in Wr; contradiction].
     cbn [flat_map]. rewrite app_nil_r.
     destruct l as [|b l]; [congruence|].
     pose proof (map_o_charstrs (b :: l) Wc) as M. cbn [map] in M |- *. rewrite M. cbn [bind read_fields]. reflexivity.
+  - specialize (Wl (or_intror eq_refl)). subst kr.
+    destruct vr as [|? ?]; [|cbn [wf_fields] in Wr; contradiction].
+    cbn [flat_map]. rewrite app_nil_r.
+    destruct w as [|c w]; [reflexivity|]. cbv iota. remember (c :: w) as x.
+    cbn [map map_o shape_tok t_syms]. rewrite plain_word_text. cbn [bind concat read_fields]. rewrite app_nil_r. reflexivity.
 Qed.
 
 (* ------------------------------------------------------------------ records *)
 
 Definition field_sops (fc : fval * option text) : list sop :=
-  map (fun sh => STok sh) (field_shapes (fst fc)) ++ match snd fc with Some c => [SComment c] | None => [] end.
+  val_sops (fst fc) ++ match snd fc with Some c => [SComment c] | None => [] end.
 Definition data_sops (block : bool) (fs : list (fval * option text)) : list sop :=
   if block then SBegin :: flat_map field_sops fs ++ [SEnd] else flat_map field_sops fs.
 Definition record_sops (r : record) : list sop :=
@@ -128,8 +147,8 @@ Definition record_sops (r : record) : list sop :=
 
 Lemma erase_field_sops fc : map erase (field_sops fc) = field_ops fc.
 Proof.
-  unfold field_sops, field_ops. rewrite map_app, map_map. f_equal.
-  - rewrite <- field_shapes_text. apply map_ext. intros sh. reflexivity.
+  unfold field_sops, field_ops. rewrite map_app. f_equal.
+  - apply val_sops_text.
   - destruct (snd fc); reflexivity.
 Qed.
 
@@ -165,18 +184,35 @@ Proof.
   cbn [map fst] in W. inversion W as [|? ? [k Wk] Wr]; subst. inversion C as [|? ? C1 C2]; subst.
   cbn [flat_map]. cbn [snd] in C1. apply Forall_app. split; [|apply IH; assumption].
   unfold field_sops. cbn [fst snd]. apply Forall_app. split.
-  - rewrite Forall_map. eapply Forall_impl; [|exact (field_shapes_good k _ Wk)].
-    intros sh G. split; [exact G | constructor].
+  - exact (val_sops_good k _ Wk).
   - destruct oc; [constructor; [exact C1 | constructor] | constructor].
+Qed.
+
+Lemma balanced_stoks l d rest : balanced d (map (fun sh => STok sh) l ++ rest) = balanced d rest.
+Proof. induction l as [|sh l IH]; [reflexivity|]. cbn [map app balanced]. exact IH. Qed.
+
+Lemma expect_stoks multi l rest :
+  expect multi true (map (fun sh => STok sh) l ++ rest) = map (shape_tok true) l ++ expect multi true rest.
+Proof. induction l as [|sh l IH]; [reflexivity|]. cbn [map app expect]. f_equal. exact IH. Qed.
+
+Lemma balanced_val v d rest : balanced d (val_sops v ++ rest) = balanced d rest.
+Proof.
+  destruct v as [n|n|b|w|l|w]; try apply balanced_stoks.
+  destruct w as [|c w]; [reflexivity|]. apply balanced_stoks.
+Qed.
+
+Lemma expect_val multi v rest :
+  expect multi true (val_sops v ++ rest) = map (shape_tok true) (field_shapes v) ++ expect multi true rest.
+Proof.
+  destruct v as [n|n|b|w|l|w]; try apply expect_stoks.
+  destruct w as [|c w]; [reflexivity|]. apply expect_stoks.
 Qed.
 
 Lemma balanced_flat fs d rest : balanced d (flat_map field_sops fs ++ rest) = balanced d rest.
 Proof.
   induction fs as [|f fs IH]; [reflexivity|]. cbn [flat_map]. rewrite <- app_assoc.
-  unfold field_sops at 1. rewrite <- app_assoc.
-  induction (field_shapes (fst f)) as [|sh l IHl].
-  - cbn [map app]. destruct (snd f); cbn [app balanced]; exact IH.
-  - cbn [map app balanced]. exact IHl.
+  unfold field_sops at 1. rewrite <- app_assoc, balanced_val.
+  destruct (snd f); cbn [app balanced]; exact IH.
 Qed.
 
 Lemma expect_flat multi fs rest :
@@ -184,10 +220,8 @@ Lemma expect_flat multi fs rest :
   = map (shape_tok true) (flat_map field_shapes (map fst fs)) ++ expect multi true rest.
 Proof.
   induction fs as [|f fs IH]; [reflexivity|]. cbn [flat_map map]. rewrite <- app_assoc, map_app, <- app_assoc.
-  unfold field_sops at 1. rewrite <- app_assoc.
-  induction (field_shapes (fst f)) as [|sh l IHl].
-  - cbn [map app]. destruct (snd f); cbn [app expect]; exact IH.
-  - cbn [map app expect]. f_equal. exact IHl.
+  unfold field_sops at 1. rewrite <- app_assoc, expect_val. f_equal.
+  destruct (snd f); cbn [app expect]; exact IH.
 Qed.
 
 Lemma record_sops_facts multi schema r : wf_record schema r ->
